@@ -75,7 +75,8 @@ func init() {
 func gen(r *verifsim.Rng, tier string) (any, hx.Sched) {
 	w := &W{}
 	nh := 1 + r.Intn(3)
-	kinds := []string{"read2", "read2", "read2", "loop", "arr", "obj", "depth", "closure", "helper", "attr"}
+	kinds := []string{"read2", "read2", "read2", "loop", "arr", "obj", "depth", "closure", "helper",
+		"helperg", "objg", "closureg", "trycatch", "strbuild", "sortcb", "nested"}
 	nr := 2 + r.Intn(4)
 	if tier == "thorough" {
 		nr = verifsim.Pick(r, []int{2, 3, 4, 6, 8, 12, 16, 24, 32, 64})
@@ -214,10 +215,16 @@ func script(w *W) string {
 use Net\Http\Server;
 class Acc {
   public $v = 0;
+  public $log = [];
   public function add($n) { $this->v = $this->v + $n; return $this; }
+  public function addg($n, $who) { $t = $n; $w = $who; __gate(); $this->v = $this->v + $t; $this->log[] = $w; return $this; }
   public function down($n) { if ($n <= 0) { __gate(); return 0; } return 1 + $this->down($n - 1); }
 }
 function helper($a, $b) { return $a . "-" . $b; }
+function helperg($a, $b) { $x = $a; $y = $b; __gate(); $z = $x . "+" . $y; __gate(); return $z; }
+function outerfn($a, $n) { if ($n <= 0) { return innerfn($a); } return outerfn($a . ".", $n - 1); }
+function innerfn($a) { $loc = "<" . $a . ">"; __gate(); return $loc; }
+function thrower($a) { throw new Exception("boom-" . $a); }
 $server = new Server('127.0.0.1', 0);
 `)
 	if w.OnError {
@@ -251,6 +258,20 @@ $server = new Server('127.0.0.1', 0);
 				fmt.Fprintf(&b, "  $t0 = $req->header(\"X-T\"); $f = function($z) use ($t0, $k) { return $t0 . \":\" . ($z + $k); };%s\n  $out .= \"%s=\" . $f(10) . \";\";\n", gate, lab)
 			case "helper":
 				fmt.Fprintf(&b, "  $t1 = $req->header(\"X-T\");%s\n  $out .= \"%s=\" . helper($t1, $k) . \";\";\n", gate, lab)
+			case "helperg":
+				fmt.Fprintf(&b, "  $t2 = $req->header(\"X-T\");\n  $out .= \"%s=\" . helperg($t2, $k) . \";\";\n", lab)
+			case "objg":
+				fmt.Fprintf(&b, "  $og = new Acc(); $tg = $req->header(\"X-T\"); $og->addg($k, $tg)->addg(1, $tg);\n  $out .= \"%s=\" . $og->v . \":\" . implode(\",\", $og->log) . \";\";\n", lab)
+			case "closureg":
+				fmt.Fprintf(&b, "  $t3 = $req->header(\"X-T\"); $fg = function($z) use ($t3, $k) { $mine = $t3; __gate(); return $mine . \":\" . ($z + $k); };\n  $out .= \"%s=\" . $fg(10) . \";\";\n", lab)
+			case "trycatch":
+				fmt.Fprintf(&b, "  $t4 = $req->header(\"X-T\"); $caught = \"none\";\n  try {%s thrower($t4); } catch (Exception $e) {%s $caught = $e->getMessage(); } finally { $fin = $t4; }\n  $out .= \"%s=\" . $caught . \"/\" . $fin . \";\";\n", gate, gate, lab)
+			case "strbuild":
+				fmt.Fprintf(&b, "  $t5 = $req->header(\"X-T\"); $parts = [];\n  for ($i = 0; $i < 4; $i++) { $parts[] = $t5 . $i;%s }\n  $out .= \"%s=\" . implode(\"|\", $parts) . strlen(str_repeat($t5, 3)) . \";\";\n", gate, lab)
+			case "sortcb":
+				fmt.Fprintf(&b, "  $t6 = $req->header(\"X-T\"); $sv = [3, 1, 2];\n  usort($sv, function($x, $y) use ($t6) { __gate(); return $x - $y; });\n  $out .= \"%s=\" . $t6 . implode(\"\", $sv) . \";\";\n", lab)
+			case "nested":
+				fmt.Fprintf(&b, "  $t7 = $req->header(\"X-T\");\n  $out .= \"%s=\" . outerfn($t7, %d) . \";\";\n", lab, 1+bi%3)
 			case "attr":
 				fmt.Fprintf(&b, "  $req->attribute(\"who\", $req->header(\"X-T\"));%s\n  $out .= \"%s=\" . $req->attribute(\"who\") . \";\";\n", gate, lab)
 			}
@@ -301,7 +322,7 @@ func observe(c *hx.SimConn, p any) obs {
 	o.Hdr = hx.HeaderString(h)
 	if p != nil {
 		if ctl, ok := p.(data.Control); ok {
-			o.Panic = firstLine(hx.CtlStr(ctl))
+			o.Panic = ptrRe.ReplaceAllString(firstLine(hx.CtlStr(ctl)), "0x…")
 		} else {
 			o.Panic = firstLine(fmt.Sprint(p))
 		}
@@ -313,8 +334,8 @@ func firstLine(s string) string {
 	if i := strings.IndexByte(s, '\n'); i >= 0 {
 		s = s[:i]
 	}
-	if len(s) > 100 {
-		s = s[:100]
+	if len(s) > 400 {
+		s = s[:400]
 	}
 	return s
 }
@@ -473,6 +494,8 @@ func exec(t *testing.T, x any, s hx.Sched) *hx.Outcome {
 	}
 	return o
 }
+
+var ptrRe = regexp.MustCompile(`0x[0-9a-f]+`)
 
 var segStart = regexp.MustCompile(`b\d+\.`)
 
